@@ -44,7 +44,7 @@ type Work struct {
 	CtxMode int    `json:"ctx_mode,omitempty"` // 0 simulated cancellable context, 1 context.Background(), 2 vm.Execute (no context argument)
 }
 
-const nSites = 32
+const nSites = 48
 const nWraps = 7
 
 func siteSrc(k int, id string) string {
@@ -111,8 +111,40 @@ func siteSrc(k int, id string) string {
 		return "go func() { h(" + id + "); [1][5] }()"
 	case 30:
 		return "go callr(func(x) { return h(" + id + ") })"
-	default:
+	case 31:
 		return "go func() { func() { defer func() { h(" + id + ") }(); h(2" + id + ") }() }()"
+	case 32:
+		return "go hv([" + id + ", 2]...)"
+	case 33:
+		return "hp(" + id + ", \"a\")"
+	case 34:
+		return "hpf(\"x\", " + id + ")"
+	case 35:
+		return "func g" + id + "(a, b) { h(" + id + ") }\ng" + id + "(hnilv()...)"
+	case 36:
+		return "hv(hnilv()...)"
+	case 37:
+		return "func g" + id + "(a, b) { h(" + id + ") }\ngo g" + id + "(hnilv()...)"
+	case 38:
+		return "defer hv([" + id + ", 2]...)"
+	case 39:
+		return "func d" + id + "() { defer hp(" + id + ") }\nd" + id + "()"
+	case 40:
+		return "go hp(" + id + ")"
+	case 41:
+		return "hpe(" + id + ", 1.5)"
+	case 42:
+		return "nilobj.M(" + id + ")"
+	case 43:
+		return "go nilobj.M(" + id + ")"
+	case 44:
+		return "hs(\"s" + id + "\")"
+	case 45:
+		return "hp(hE(" + id + ")...)"
+	case 46:
+		return "go hpf(\"x\", [" + id + "]...)"
+	default:
+		return "func g" + id + "(a, b) { return a }\ng" + id + "(nil...)"
 	}
 }
 
@@ -254,6 +286,12 @@ func (Prop) Run(t *testing.T, c *harness.Case, verbose bool) *harness.Result {
 				close(ch)
 			}
 		})
+		e.Define("hp", func(args ...interface{}) { fault("hp") })
+		e.Define("hpe", func(args ...interface{}) (int, error) { fault("hpe"); return len(args), nil })
+		e.Define("hpf", func(format string, args ...interface{}) (int, error) { fault("hpf"); return len(args), nil })
+		e.Define("hs", func(s string) string { fault("hs"); return s })
+		e.Define("hnilv", func() interface{} { fault("hnilv"); return nil })
+		e.Define("nilobj", (*T)(nil))
 		e.Define("call", func(f func()) { fault("call"); f() })
 		e.Define("callr", func(f func(int64) int64) int64 { fault("callr"); return f(1) + 1 })
 		obj := &T{}
